@@ -64,7 +64,9 @@ func genSize(t *rapid.T, c *Case, label string, allowOversize bool) (series, tot
 
 // genFault draws one fault action.
 func genFault(t *rapid.T, l string, sh int) Action {
-	switch pick(t, l+"-fault", 4, 3, 3, 2, 2, 2, 3, 2) {
+	switch pick(t, l+"-fault", 4, 3, 3, 2, 2, 2, 3, 2, 3) {
+	case 8:
+		return Action{Kind: "jobBroken", Shard: sh, Job: rapid.SampledFrom([]string{"j0", "j1"}).Draw(t, l+"-job"), K: rapid.IntRange(2, 6).Draw(t, l+"-k")}
 	case 0:
 		return Action{Kind: "dropPost", Shard: sh, Match: rapid.SampledFrom([]string{"any", "add", "transfer"}).Draw(t, l+"-match")}
 	case 1:
@@ -207,7 +209,9 @@ func GenCase(t *rapid.T, withFaults bool) *Case {
 			if withFaults && faults < 4 && rapid.IntRange(0, 2).Draw(t, l+"-faultOn") == 0 {
 				faults++
 				sh := rapid.IntRange(0, 4).Draw(t, l+"-shard")
-				switch pick(t, l+"-fault", 5, 3, 3, 2, 2, 2, 2, 2) {
+				switch pick(t, l+"-fault", 5, 3, 3, 2, 2, 2, 2, 2, 3) {
+				case 8:
+					c.Prefix = append(c.Prefix, Action{Kind: "jobBroken", Shard: sh, Job: rapid.SampledFrom([]string{"j0", "j1"}).Draw(t, l+"-job"), K: rapid.IntRange(2, 6).Draw(t, l+"-k")})
 				case 0:
 					c.Prefix = append(c.Prefix, Action{Kind: "dropPost", Shard: sh, Match: rapid.SampledFrom([]string{"any", "add", "transfer", "transfer"}).Draw(t, l+"-match")})
 				case 1:
@@ -284,7 +288,9 @@ func GenCase(t *rapid.T, withFaults bool) *Case {
 		default:
 			faults++
 			sh := rapid.IntRange(0, 4).Draw(t, l+"-shard")
-			switch pick(t, l+"-fault", 4, 3, 3, 2, 2, 2, 2, 2) {
+			switch pick(t, l+"-fault", 4, 3, 3, 2, 2, 2, 2, 2, 3) {
+			case 8:
+				c.Prefix = append(c.Prefix, Action{Kind: "jobBroken", Shard: sh, Job: rapid.SampledFrom([]string{"j0", "j1"}).Draw(t, l+"-job"), K: rapid.IntRange(2, 6).Draw(t, l+"-k")})
 			case 0:
 				c.Prefix = append(c.Prefix, Action{Kind: "dropPost", Shard: sh, Match: rapid.SampledFrom([]string{"any", "add", "transfer"}).Draw(t, l+"-match")})
 			case 1:
